@@ -141,9 +141,11 @@ def display_order(rep, prog):
 
     def ident(kind, nm, i):
         if kind == "n":
-            return Adt("Identifier", NUM, (Tok("I", "%s%d" % (nm, i), 0, dom="%s%d" % (nm[0], i)),))
+            # identifiers of one list may well be equal: same value, same comparison domain, different names
+            return Adt("Identifier", NUM, (Tok("I", "%s%d" % (nm, i), 0, dom="ident-num"),))
         return Adt("Identifier", ALPHA, (Tok("T", "%s%d" % (nm, i), "x", dom="ident-str"),))
-    for pre_kinds, build_kinds in (("", ""), ("n", ""), ("a", ""), ("na", "n"), ("an", "a"), ("", "na")):
+    for pre_kinds, build_kinds in (("", ""), ("n", ""), ("a", ""), ("na", "n"), ("an", "a"), ("", "na"),
+                                   ("aa", ""), ("nn", "nn"), ("", "aa"), ("ana", "")):
         npre, nbuild = len(pre_kinds), len(build_kinds)
 
         def run(cx, pre_kinds=pre_kinds, build_kinds=build_kinds):
@@ -176,7 +178,8 @@ def display_order(rep, prog):
             else:
                 rep.fail(rule, "%s|%s|pre=%s,build=%s" % (key, rule, pre_kinds or "-", build_kinds or "-"),
                          "prints %s, expected %s%s" % (got, exp, " (for some identifier text)" if cx.decisions else ""))
-    rep.analysed_item("<Version as Display>::fmt interpreted on 6 identifier-list shapes (numeric and alphanumeric identifiers)")
+    rep.analysed_item("<Version as Display>::fmt interpreted on 10 identifier-list shapes (numeric and alphanumeric identifiers, "
+                      "including lists whose identifiers are equal)")
 
 
 def parser_wiring(rep, prog, rule):
@@ -259,7 +262,7 @@ def parser_wiring(rep, prog, rule):
                 if inner.kind in ("lit", "prim", "take_while", "alt"):
                     return NONE
                 return some(pself.value(interp, p.args[0], inp))
-            return Tok("O", "text")
+            return Tok("T", "text", "", dom="text")
 
         def stream_strip_prefix(pself, interp, tok_, pat, info):
             return NONE
